@@ -166,4 +166,19 @@ PROPS = {
                      "ASan-poisoned, canary-filled guard bands; misalignments are multiples of 8 bytes (16 for __int128)",
                      "red-zone tools do not see intra-object overflows; memcheck cannot run AVX-512 code", ASAN_NOTE],
     ),
+    "C12": dict(
+        runs=plan([dict(cfg="tsan", parts=12, timeout=1800), dict(cfg="plain", tag="ro", defs="-DVP_ROALLOC", parts=8)],
+                  [dict(cfg="tsan", parts=150, timeout=3600), dict(cfg="plain", tag="ro", defs="-DVP_ROALLOC", parts=100)]),
+        rule=("case = one concurrent workload in a short process (phase cold module+table API | warmed-up *_simple API, "
+              "two dimensions, T threads, rounds, repetition): every thread runs a random permutation of all entry "
+              "points of the phase on private data against the shared modules/tables; distinct by descriptor hash; "
+              "non-trivial when at least one pair of calls from different threads overlapped in time"),
+        require={"all": ["concurrent_calls", "overlapping_call_pairs", "tsan_instrumented_calls", "ro_protected_bytes",
+                         "entry_points_observed_concurrently", "overlap_pairs"]},
+        assumptions=["gcc ThreadSanitizer happens-before detection (does not see accesses made inside the four .s kernels, "
+                     "which only touch caller data)", "in the 'ro' build every allocation made while creating modules and "
+                     "tables is served from private mappings that are PROT_READ during the concurrent phase",
+                     "executions decide only the interleavings that were observed (overlap counts are in the evidence)"],
+        technique="runtime monitoring: ThreadSanitizer + read-only (mprotect) tables + concurrent-vs-sequential differential",
+    ),
 }
